@@ -123,7 +123,7 @@ theorem step_stack_len {m m' : M} {cfg : Cfg} {buf : Bytes} {p pk : Nat} (h : m.
   obtain ⟨_, _, k⟩ := step_cases h
   cases k with
   | keep _ _ hs => rw [hs]; omega
-  | opn _ _ r _ hs => rw [hs]; simp; omega
+  | opn _ _ r _ hs _ => rw [hs]; simp; omega
   | cls _ x hs _ => rw [hs]; simp
   | root _ _ hs => rw [hs]; simp; omega
   | sc _ _ hs => rw [hs]; omega
@@ -154,10 +154,144 @@ theorem cnt_diff (p : Nat) : ∀ k, E.c (p + k) ≤ E.c p + k
     have h3 : (if emit E.nd E.msg (p + k) = true then 1 else 0) ≤ 1 := by split <;> omega
     omega
 
+theorem s1Step_nl (s : S1State) :
+    s1Step true s 10 = ({ bsOdd := false, inQuote := s.inQuote, prevPred := true, err := s.err || s.inQuote }, !s.inQuote) := by
+  have h1 : isBackslashByte 10 = false := by decide +kernel
+  have h2 : isQuoteByte 10 = false := by decide +kernel
+  have h3 : isWsByte 10 = true := by decide +kernel
+  have h4 : isStructByte 10 = false := by decide +kernel
+  have h5 : isNewlineByte 10 = true := by decide +kernel
+  have h6 : isCtrlByte 10 = true := by decide +kernel
+  obtain ⟨a, b, c, d⟩ := s
+  simp only [s1Step, h1, h2, h3, h4, h5, h6]
+  cases a <;> cases b <;> cases c <;> cases d <;> rfl
+
+/-- in ND mode a line feed is an index unless it lies inside a string (and then the error flag is set) -/
+theorem nl_raw (nd : Bool) (msg : Bytes) (e : Nat) (hnd : nd = true) (he : e < msg.size) (hb : byteAt msg e = 10) :
+    emit nd msg e = true ∨ (σ nd msg (e + 1)).err = true := by
+  subst hnd
+  have hb' : msg.getD e 0x20 = 10 := by
+    have : msg.getD e 0x20 = msg.getD e 0 := by simp [Array.getD, he]
+    rw [this]; exact hb
+  have hs : Block.padStep true msg (Block.padSt true msg e) e = s1Step true (Block.padSt true msg e) 10 := by
+    unfold Block.padStep; rw [hb']
+  have h1 : emit true msg e = (s1Step true (Block.padSt true msg e) 10).2 := by
+    show (Block.padStep true msg (Block.padSt true msg e) e).2 = _; rw [hs]
+  have h2 : σ true msg (e + 1) = (s1Step true (Block.padSt true msg e) 10).1 := by
+    show (Block.padStep true msg (Block.padSt true msg e) e).1 = _; rw [hs]
+  rw [h1, h2, s1Step_nl]
+  cases (Block.padSt true msg e).inQuote
+  · left; rfl
+  · right; simp
+
+/-! ## the shape of the stack determines the kind of state -/
+
+/-- inside a container the stack has the container shape; between documents it holds the root entry only -/
+def Inv (m : M) : Prop := (InCont m.st ∧ StackShape m.stack) ∨ (¬ InCont m.st ∧ m.stack.length = 1)
+
+theorem retSt_start {x : UInt64} (h : retOf x = cretAddressStartConst) : retSt x = .startContinue := by
+  unfold retSt; rw [h]; rfl
+
+theorem retSt_inCont {x : UInt64} (h : retOf x = cretAddressObjectConst ∨ retOf x = cretAddressArrayConst) :
+    InCont (retSt x) := by
+  unfold retSt
+  rcases h with h | h <;> rw [h] <;> decide
+
+theorem inv_step {m m' : M} {cfg : Cfg} {buf : Bytes} {p pk : Nat} (h : m.step cfg buf p pk = some m') (hi : Inv m) :
+    Inv m' := by
+  obtain ⟨_, _, k⟩ := step_cases h
+  have one : ∀ {l : List UInt64}, l.length = 1 → ∃ x, l = [x] := by
+    intro l hl
+    match l, hl with
+    | [x], _ => exact ⟨x, rfl⟩
+  cases k with
+  | keep h1 h2 hs =>
+    rcases hi with ⟨_, a2⟩ | ⟨a1, _⟩
+    · exact Or.inl ⟨h2, by rw [hs]; exact a2⟩
+    · exact absurd h1 a1
+  | opn h1 h2 r hr hs _ =>
+    rcases hi with ⟨_, a2⟩ | ⟨a1, _⟩
+    · refine Or.inl ⟨h2, ?_⟩
+      rw [hs]
+      exact a2.push _ (by rw [ent_ret' _ _ (by rcases hr with rfl | rfl <;> decide)]; exact hr)
+    · exact absurd h1 a1
+  | cls h1 x hs h2 =>
+    rcases hi with ⟨_, a2⟩ | ⟨a1, _⟩
+    · obtain ⟨inner, e1, e0, he, g1, g2⟩ := a2
+      rw [hs] at he
+      cases inner with
+      | nil =>
+        simp only [List.nil_append, List.cons.injEq] at he
+        obtain ⟨rfl, he2⟩ := he
+        right
+        rw [h2, retSt_start g1, he2]
+        exact ⟨by decide, rfl⟩
+      | cons y inner' =>
+        simp only [List.cons_append, List.cons.injEq] at he
+        obtain ⟨rfl, he2⟩ := he
+        left
+        rw [h2]
+        refine ⟨retSt_inCont (g2 x (by simp)), inner', e1, e0, he2, g1, fun z hz => g2 z (List.mem_cons_of_mem _ hz)⟩
+    · exact absurd h1 a1
+  | root h1 h2 hs =>
+    rcases hi with ⟨a1, _⟩ | ⟨_, a2⟩
+    · rw [h1] at a1; exact absurd a1 (by decide)
+    · obtain ⟨x, hx⟩ := one a2
+      refine Or.inl ⟨h2, [], _, x, by rw [hs, hx]; rfl, ent_ret' _ _ (by decide), fun z hz => by cases hz⟩
+  | sc h1 h2 hs =>
+    rcases hi with ⟨a1, _⟩ | ⟨_, a2⟩
+    · rw [h1] at a1; exact absurd a1 (by decide)
+    · exact Or.inr ⟨by rw [h2]; decide, by rw [hs]; exact a2⟩
+  | ndnl h1 h2 hs =>
+    rcases hi with ⟨a1, _⟩ | ⟨_, a2⟩
+    · rw [h1] at a1; exact absurd a1 (by decide)
+    · exact Or.inr ⟨by rw [h2]; decide, by rw [hs]; exact a2⟩
+  | ndopen h1 h2 x rest hs hx hs' =>
+    rcases hi with ⟨a1, _⟩ | ⟨_, a2⟩
+    · rw [h1] at a1; exact absurd a1 (by decide)
+    · rw [hs] at a2
+      have hrest : rest = [] := by
+        cases rest with
+        | nil => rfl
+        | cons _ _ => simp at a2
+      refine Or.inl ⟨h2, [], _, _, by rw [hs', hrest]; rfl, ent_ret' _ _ (by decide), fun z hz => by cases hz⟩
+
+theorem inv_runM (cfg : Cfg) (buf : Bytes) : ∀ (l : List (Nat × Nat)) (m m' : M),
+    runM cfg buf m l = some m' → Inv m → Inv m'
+  | [], m, m', h, hi => by simp only [runM, Option.some.injEq] at h; subst h; exact hi
+  | (p, pk) :: r, m, m', h, hi => by
+    simp only [runM] at h
+    cases hs : m.step cfg buf p pk with
+    | none => rw [hs] at h; cases h
+    | some m1 =>
+      rw [hs] at h
+      exact inv_runM cfg buf r m1 m' h (inv_step hs hi)
+
+theorem runM_append (cfg : Cfg) (buf : Bytes) : ∀ (l1 l2 : List (Nat × Nat)) (m : M),
+    runM cfg buf m (l1 ++ l2) = (runM cfg buf m l1).bind (fun m1 => runM cfg buf m1 l2)
+  | [], l2, m => by simp [runM]
+  | (p, pk) :: r, l2, m => by
+    simp only [List.cons_append, runM]
+    cases m.step cfg buf p pk with
+    | none => rfl
+    | some m1 => exact runM_append cfg buf r l2 m1
+
+theorem cnt_mono {p q : Nat} (h : p ≤ q) : E.c p ≤ E.c q := by
+  obtain ⟨k, rfl⟩ : ∃ k, q = p + k := ⟨q - p, by omega⟩
+  clear h
+  induction k with
+  | zero => exact Nat.le_refl _
+  | succ k ih =>
+    have h2 := E.SF.cnt_succ (p + k)
+    show cnt E.nd E.msg p ≤ cnt E.nd E.msg (p + (k + 1))
+    rw [show p + (k + 1) = p + k + 1 by omega, h2]
+    have : cnt E.nd E.msg p ≤ cnt E.nd E.msg (p + k) := ih
+    omega
+
 /-- fewer bytes left in the window than containers to close -/
 theorem dead_by_depth {a e p : Nat} (W : Win E a e) (ha : a ≤ p) (hp : p ≤ e) {m : M}
-    (hD : (e - p) + 2 ≤ m.stack.length) : Dead E m (E.c p) := by
-  rcases W.stop with hs | ⟨hnd, hs⟩
+    (hic : InCont m.st) (hss : StackShape m.stack) (hD : (e - p) + 2 ≤ m.stack.length) : Dead E m (E.c p) := by
+  by_cases hes : e = E.msg.size
   · intro G
     cases hr : runM E.cfg E.msg m (E.L.drop (E.c p)) with
     | none => rfl
@@ -166,13 +300,52 @@ theorem dead_by_depth {a e p : Nat} (W : Win E a e) (ha : a ≤ p) (hp : p ≤ e
       have h2 : (E.L.drop (E.c p)).length ≤ e - p := by
         rw [List.length_drop, L_len, ← E.SF.cnt_size]
         have := cnt_diff (E := E) p (e - p)
-        rw [show p + (e - p) = e by omega, hs] at this
+        rw [show p + (e - p) = e by omega, hes] at this
         show cnt E.nd E.msg E.msg.size - _ ≤ _
         have h3 : E.c E.msg.size = cnt E.nd E.msg E.msg.size := rfl
         omega
       simp only [Option.bind_some]
       exact finish_none_of_len (by omega)
-  · sorry
+  · have hlt : e < E.msg.size := by have := W.he; omega
+    obtain ⟨hnd, hbe⟩ : E.nd = true ∧ E.b e = 10 := by
+      rcases W.stop with h | h
+      · exact absurd h hes
+      · exact h
+    intro G
+    -- the line feed at `e` is an index
+    have hem : E.em e = true := by
+      rcases nl_raw E.nd E.msg e hnd hlt hbe with h | h
+      · exact h
+      · have := E.SF.errMono (e + 1) E.msg.size (by omega) h
+        have h2 := G.err
+        rw [show E.err E.msg.size = (σ E.nd E.msg E.msg.size).err from rfl, this] at h2
+        cases h2
+    obtain ⟨pk, d1, _, _⟩ := drop_at hlt hem
+    -- split the remaining pairs at the line feed
+    have hce : E.c p ≤ E.c e := cnt_mono hp
+    have hsplit : E.L.drop (E.c p) = (E.L.drop (E.c p)).take (E.c e - E.c p) ++ E.L.drop (E.c e) := by
+      conv => lhs; rw [← List.take_append_drop (E.c e - E.c p) (E.L.drop (E.c p))]
+      rw [List.drop_drop]
+      congr 2; omega
+    rw [hsplit, runM_append]
+    cases hr : runM E.cfg E.msg m ((E.L.drop (E.c p)).take (E.c e - E.c p)) with
+    | none => rfl
+    | some m1 =>
+      simp only [Option.bind_some]
+      have h1 := runM_stack_len _ _ _ _ _ hr
+      have h2 : ((E.L.drop (E.c p)).take (E.c e - E.c p)).length ≤ e - p := by
+        rw [List.length_take]
+        have := cnt_diff (E := E) p (e - p)
+        rw [show p + (e - p) = e by omega] at this
+        have : E.c e - E.c p ≤ e - p := by omega
+        exact Nat.le_trans (Nat.min_le_left _ _) this
+      have hinv := inv_runM _ _ _ _ _ hr (Or.inl ⟨hic, hss⟩)
+      have hic1 : InCont m1.st := by
+        rcases hinv with ⟨h, _⟩ | ⟨_, h⟩
+        · exact h
+        · omega
+      rw [d1]
+      simp [runM, fail_nl hic1 hbe]
 
 /-! ## the ghost document -/
 
@@ -399,5 +572,157 @@ theorem open_sim {a e p : Nat} (W : Win E a e) (hap : a ≤ p) (hpe : p < e) (hr
     · have := hprog.1; omega
     · exact (hprog.trans k11).2.1
     · exact (hprog.trans k11).2.2
+
+theorem all4 (f : Nat → UInt8) (a0 a1 a2 a3 : UInt8) :
+    (∀ j (h : j < [a0, a1, a2, a3].length), f j = [a0, a1, a2, a3][j]) ↔ (f 0 = a0 ∧ f 1 = a1 ∧ f 2 = a2 ∧ f 3 = a3) := by
+  constructor
+  · intro h; exact ⟨h 0 (by simp), h 1 (by simp), h 2 (by simp), h 3 (by simp)⟩
+  · rintro ⟨h0, h1, h2, h3⟩ j hj
+    have : j = 0 ∨ j = 1 ∨ j = 2 ∨ j = 3 := by simp at hj; omega
+    rcases this with rfl | rfl | rfl | rfl <;> simpa
+
+theorem all5 (f : Nat → UInt8) (a0 a1 a2 a3 a4 : UInt8) :
+    (∀ j (h : j < [a0, a1, a2, a3, a4].length), f j = [a0, a1, a2, a3, a4][j]) ↔
+      (f 0 = a0 ∧ f 1 = a1 ∧ f 2 = a2 ∧ f 3 = a3 ∧ f 4 = a4) := by
+  constructor
+  · intro h; exact ⟨h 0 (by simp), h 1 (by simp), h 2 (by simp), h 3 (by simp), h 4 (by simp)⟩
+  · rintro ⟨h0, h1, h2, h3, h4⟩ j hj
+    have : j = 0 ∨ j = 1 ∨ j = 2 ∨ j = 3 ∨ j = 4 := by simp at hj; omega
+    rcases this with rfl | rfl | rfl | rfl | rfl <;> simpa
+
+theorem lit_true : "true".toUTF8.data.toList = [116, 114, 117, 101] := by decide
+theorem lit_false : "false".toUTF8.data.toList = [102, 97, 108, 115, 101] := by decide
+theorem lit_null : "null".toUTF8.data.toList = [110, 117, 108, 108] := by decide
+
+/-! ## one more unit of fuel: values -/
+
+theorem value_step {a e f : Nat} (W : Win E a e) (IHe : ElemsSim E a e f) (IHm : MembersSim E a e f) :
+    ValueSim E a e (f + 1) := by
+  intro p m g hap hpe hr hnw hfuel hst hss hok
+  have hps : p < E.msg.size := Nat.lt_of_lt_of_le hpe W.he
+  have hcons := seg_cons (E := E) hpe W.he
+  have hnwb : isWsByte (E.b p) = false := by rw [← isWs_eq]; exact hnw
+  obtain ⟨pk0, hd0, _, _⟩ := tok_at hps hr hnwb
+  rw [hcons, Spec.value]
+  by_cases h123 : (E.b p == 123) = true
+  · rw [if_pos h123]
+    have hb : E.b p = 123 := by simpa using h123
+    obtain ⟨p1, k1, k2, k3⟩ := open_sim W hap hpe hr g hst hss hok 123 hb .objBegin (.obj m.tape.size [] none)
+      (Or.inl ⟨rfl, rfl, rfl⟩) (fun p1 => Spec.members f (E.seg e p1) [] true)
+      (fun p1 m1 h1 h2 h3 h4 h5 h6 h7 h8 h9 =>
+        IHm p1 m1 g [] true m.tape.size [] g.frames _ _ h1 h3 h4 h5 (by rw [h7]; simp only [List.length_cons]; omega)
+          (by rw [h6]; rfl) h7 h8 h9 rfl)
+    rw [k2]; exact k3
+  rw [if_neg h123]
+  by_cases h91 : (E.b p == 91) = true
+  · rw [if_pos h91]
+    have hb : E.b p = 91 := by simpa using h91
+    obtain ⟨p1, k1, k2, k3⟩ := open_sim W hap hpe hr g hst hss hok 91 hb .arrBegin (.arr m.tape.size [])
+      (Or.inr ⟨rfl, rfl, rfl⟩) (fun p1 => Spec.elements f (E.seg e p1) [] true)
+      (fun p1 m1 h1 h2 h3 h4 h5 h6 h7 h8 h9 =>
+        IHe p1 m1 g [] true m.tape.size [] g.frames _ _ h1 h3 h4 h5 (by rw [h7]; simp only [List.length_cons]; omega)
+          (by rw [h6]; rfl) h7 h8 h9 rfl)
+    rw [k2]; exact k3
+  rw [if_neg h91]
+  by_cases h34 : (E.b p == 34) = true
+  · rw [if_pos h34, ← hcons]
+    have hb : E.b p = 34 := by simpa using h34
+    have hb' : E.msg.getD p 0 = 34 := hb
+    cases hsb : Spec.stringBody ((E.seg e p).length + 1) (E.seg e (p + 1)) [] false with
+    | out => trivial
+    | rej =>
+      obtain ⟨pk, r, k1, k2⟩ := str_rej W hap hr hpe hb (by rw [seg_length W.he, seg_length W.he]; omega) hsb
+      exact dead_of_step_none' k1 (fun G => step_val_none hst (by
+        rw [value_str m E.cfg E.msg p pk _ hb', parseString_none _ _ _ _ _ (k2 G)]; rfl))
+    | acc dec rest =>
+      obtain ⟨p', pk, k1, k2, k3, k4, k5, k6, k7, k8⟩ := str_acc W hap hr hpe hb hsb
+      refine ⟨p', k1, by omega, k3, ?_⟩
+      rcases k8 with ⟨cl, hdec⟩ | ⟨hnm, hnone⟩
+      · left
+        obtain ⟨m1, q1, q2, q3, q4⟩ := parseString_ok m E.cfg E.msg p pk _ _ hdec
+        have hstep := step_val_some hst (m1 := m1) (pk := pk) (by rw [value_str m E.cfg E.msg p pk _ hb', q1]; rfl)
+        refine ⟨{ m1 with st := contSt m.st }, .str dec m.tape.size, ?_, by simp [erase, ofSpec], k4, k5, rfl, q3,
+          by omega, by simp only; omega, by simp only; omega⟩
+        rw [run_step g k7 hstep, gstep_value m g E.msg p pk hst]
+        have : gvalue m g E.msg p pk = g.addVal (.str dec m.tape.size) := by
+          simp [gvalue, hb', hdec]
+        rw [this]; rfl
+      · right
+        refine ⟨?_, dead_of_step_none' k7 (fun G => step_val_none hst (by
+          rw [value_str m E.cfg E.msg p pk _ hb', parseString_none _ _ _ _ _ (hnone G)]; rfl))⟩
+        rintro ⟨x, r, hx, hx3⟩
+        have := hnm x r hx
+        rw [markup_spec] at this
+        rcases hx3 with rfl | rfl | rfl <;> exact absurd this (by decide)
+  rw [if_neg h34]
+  by_cases h116 : (E.b p == 116) = true
+  · rw [if_pos h116, ← hcons, lit_true]
+    have hb : E.msg.getD p 0 = 116 := by simpa using h116
+    have := atom_sim W hap hr hpe hnwb [116, 114, 117, 101] (by decide) (by decide +kernel) (isValidTrueAtom E.msg p)
+      (by rw [validTrue_iff, all4 (fun j => E.b (p + j))]; rfl) g hst (.bool true) (.bool true m.tape.size) rfl 116
+      (fun pk => value_true m E.cfg E.msg p pk _ hb) (fun pk => by simp [gvalue, hb])
+    cases hl : Spec.literal [116, 114, 117, 101] (Spec.JVal.bool true) (E.seg e p) with
+    | out => trivial
+    | rej => rw [hl] at this; exact this
+    | acc v' rest => rw [hl] at this; obtain ⟨rfl, h2⟩ := this; exact h2
+  rw [if_neg h116]
+  by_cases h102 : (E.b p == 102) = true
+  · rw [if_pos h102, ← hcons, lit_false]
+    have hb : E.msg.getD p 0 = 102 := by simpa using h102
+    have := atom_sim W hap hr hpe hnwb [102, 97, 108, 115, 101] (by decide) (by decide +kernel) (isValidFalseAtom E.msg p)
+      (by rw [validFalse_iff, all5 (fun j => E.b (p + j))]; rfl) g hst (.bool false) (.bool false m.tape.size) rfl 102
+      (fun pk => value_false m E.cfg E.msg p pk _ hb) (fun pk => by simp [gvalue, hb])
+    cases hl : Spec.literal [102, 97, 108, 115, 101] (Spec.JVal.bool false) (E.seg e p) with
+    | out => trivial
+    | rej => rw [hl] at this; exact this
+    | acc v' rest => rw [hl] at this; obtain ⟨rfl, h2⟩ := this; exact h2
+  rw [if_neg h102]
+  by_cases h110 : (E.b p == 110) = true
+  · rw [if_pos h110, ← hcons, lit_null]
+    have hb : E.msg.getD p 0 = 110 := by simpa using h110
+    have := atom_sim W hap hr hpe hnwb [110, 117, 108, 108] (by decide) (by decide +kernel) (isValidNullAtom E.msg p)
+      (by rw [validNull_iff, all4 (fun j => E.b (p + j))]; rfl) g hst .null (.null m.tape.size) rfl 110
+      (fun pk => value_null m E.cfg E.msg p pk _ hb) (fun pk => by simp [gvalue, hb])
+    cases hl : Spec.literal [110, 117, 108, 108] Spec.JVal.null (E.seg e p) with
+    | out => trivial
+    | rej => rw [hl] at this; exact this
+    | acc v' rest => rw [hl] at this; obtain ⟨rfl, h2⟩ := this; exact h2
+  rw [if_neg h110]
+  by_cases hnum : (E.b p == 45) = true ∨ Spec.isDigit (E.b p) = true
+  · rw [if_pos hnum, ← hcons]
+    have hc : E.b p = 45 ∨ SJ.isDigit (E.b p) = true := by
+      rcases hnum with h | h
+      · left; simpa using h
+      · right; exact h
+    have := num_sim W hap hr hpe hc g hst
+    cases hnl : Spec.numberLit (E.seg e p) with
+    | none => rw [hnl] at this; exact this
+    | some lr =>
+      obtain ⟨l, rest⟩ := lr
+      rw [hnl] at this
+      dsimp only at this ⊢
+      cases hnv : Spec.numValue l with
+      | none => rw [hnv] at this; exact this
+      | some n => rw [hnv] at this; exact this
+  rw [if_neg hnum]
+  apply dead_of_step_none hd0
+  apply step_val_none hst
+  apply value_bad
+  intro hbad
+  have e1 : ¬ E.msg.getD p 0 = 34 := by simpa using h34
+  have e2 : ¬ E.msg.getD p 0 = 116 := by simpa using h116
+  have e3 : ¬ E.msg.getD p 0 = 102 := by simpa using h102
+  have e4 : ¬ E.msg.getD p 0 = 110 := by simpa using h110
+  have e7 : ¬ E.msg.getD p 0 = 123 := by simpa using h123
+  have e8 : ¬ E.msg.getD p 0 = 91 := by simpa using h91
+  rcases hbad with h | h | h | h | h | h | h | h
+  · exact e1 h
+  · exact e2 h
+  · exact e3 h
+  · exact e4 h
+  · exact hnum (Or.inl (by simpa using h))
+  · exact hnum (Or.inr h)
+  · exact e7 h
+  · exact e8 h
 
 end SJ.TokenSim
